@@ -91,7 +91,7 @@ func Discharge(o *Obligation, dir string, quickS, slowS int) *Result {
 	r.TimeS += dur
 	if ans == "unsat" || ans == "sat" {
 		r.Answer, r.Solver, r.Output = ans, solvers[0].name, out
-	} else if o.ExpectSat {
+	} else if o.ExpectSat || o.QuickOnly {
 		// cover queries (vacuity guards) get the short limit only: finding a model of a script
 		// with quantifiers is often out of reach, and only a quick `unsat` is informative
 		r.Answer, r.Solver, r.Output = ans, solvers[0].name, out
